@@ -347,7 +347,7 @@ class ODFWriter:
             # handle special case nothing but an image in a paragraph
             if img_as_only_child and isinstance(obj.next, advtree.Paragraph):
                 img = obj.get_first_child()
-                img.move_to(obj.next.getFirstChild(), prefix=True)
+                img.move_to(obj.next.get_first_child(), prefix=True)
                 return SkipChildren()
             return ParagraphProxy(stylename=style.textbody)
 
